@@ -65,6 +65,14 @@ pub struct NoInfo;
 #[scale_info(skip_type_params(T))]
 pub struct Sk<T>(pub PhantomData<T>, pub u8);
 
+/// the skipped parameter is still used by a member: instantiations are different types with different definitions
+#[derive(TypeInfo)]
+#[scale_info(skip_type_params(T))]
+pub struct SkUsed<T> {
+    pub items: Vec<T>,
+    pub n: u8,
+}
+
 #[derive(TypeInfo)]
 pub enum E {
     A,
@@ -288,6 +296,9 @@ pub fn universe() -> Vec<Member> {
         m!(core G<G<u8>>, "G<G<u8>>"),
         m!(P<OnlyParam>, "P<OnlyParam>"),
         m!(Sk<NoInfo>, "Sk<NoInfo>"),
+        m!(Sk<u8>, "Sk<u8>"),
+        m!(SkUsed<u8>, "SkUsed<u8>"),
+        m!(SkUsed<u16>, "SkUsed<u16>"),
         m!(E, "E"),
         // hand-written
         m!(core HandFull, "HandFull"),
